@@ -261,7 +261,7 @@ def _exc_name(e):
 SUSPECT = ("NameError", "UnboundLocalError", "AttributeError", "IndexError", "KeyError", "AssertionError", "ZeroDivisionError")
 
 
-def prepare(case_dec):
+def prepare(case_dec, allow_empty=False):
     """Common first stage: build callables, check that NumPy accepts the call, build realified F."""
     ncall, x0 = build(case_dec, "np")
     acall, _ = build(case_dec, "ag")
@@ -276,7 +276,7 @@ def prepare(case_dec):
         return None, Outcome("not_judged", "numpy_rejects_config", detail=_exc_name(e))
     if not is_float_valued(y0):
         return None, Outcome("not_judged", "nonfloat_output")
-    if realify(y0).size == 0 or realify(x0).size == 0:
+    if (realify(y0).size == 0 or realify(x0).size == 0) and not allow_empty:
         return None, Outcome("not_judged", "empty")
     if not all_finite(y0):
         return None, Outcome("not_judged", "nonfinite_primal")
@@ -309,7 +309,7 @@ def _struct_check(expected_like, got, strict_dtype_if_default=True):
 
 
 def eval_rev(case_dec, rng, K=3, full_max=24, check_values=True):
-    prep, out = prepare(case_dec)
+    prep, out = prepare(case_dec, allow_empty=not check_values)
     if out:
         return out
     ncall, acall, x0, y0, F = prep
@@ -395,7 +395,7 @@ def eval_rev(case_dec, rng, K=3, full_max=24, check_values=True):
 
 
 def eval_fwd(case_dec, rng, K=2, check_values=True):
-    prep, out = prepare(case_dec)
+    prep, out = prepare(case_dec, allow_empty=not check_values)
     if out:
         return out
     ncall, acall, x0, y0, F = prep
@@ -736,9 +736,21 @@ def extra_struct_cases(rng):
     for ty in (onp.float32, onp.float64, onp.longdouble):
         for name in ("sin", "square", "exp"):
             yield case(name, [ty(0.7)], tags=["npscalar"])
-    # size-0 arrays (structure only)
-    for name in ("sin", "sum", "negative", "ravel"):
+    # size-0 arrays (structure only), incl. a size-1 axis broadcast against a zero-length axis
+    for name in ("sin", "sum", "negative", "ravel", "exp", "cumsum", "transpose", "squeeze"):
         yield case(name, [onp.zeros((0, 3))], tags=["empty"])
+        yield case(name, [onp.zeros((2, 0, 1))], tags=["empty"])
+    for name in ("add", "subtract", "multiply", "divide", "maximum", "minimum", "power", "arctan2", "hypot", "logaddexp", "mod"):
+        for (sa, sb) in (((1, 3), (0, 3)), ((0, 3), (1, 3)), ((4, 1), (4, 0)), ((1,), (0,)), ((0,), ()), ((1, 1), (0, 2)), ((2, 1, 3), (2, 0, 3)), ((3,), (0, 3))):
+            for argnum in (0, 1):
+                yield case(name, [onp.ones(sa) * 0.7, onp.ones(sb) * 1.3], argnum=argnum, tags=["empty_bcast"])
+    c0 = onp.zeros((0, 3), dtype=bool)
+    yield case("where", [c0, onp.ones((1, 3)), onp.ones((0, 3))], argnum=1, tags=["empty_bcast"])
+    yield case("where", [c0, onp.ones((0, 3)), onp.ones((1, 1))], argnum=2, tags=["empty_bcast"])
+    yield case("dot", [onp.ones((2, 0)), onp.ones((0, 3))], argnum=0, tags=["empty"])
+    yield case("matmul", [onp.ones((1, 2, 0)), onp.ones((3, 0, 2))], argnum=0, tags=["empty_bcast"])
+    yield case("concatenate", [[onp.ones((0, 3)), onp.ones((2, 3))]], argnum=0, form="listfun", tags=["empty"])
+    yield case("clip", [onp.ones((0, 2)), 0.0, 1.0], tags=["empty"])
 
 
 def make_cases(pid, tier, seed):
